@@ -3,6 +3,7 @@ EXTENDS DepHashTrace
 TH3 == <<"h1", "h2", "h3">>
 TRoot == {"h1", "h2"}
 TRootOne == {"h1"}
+QuotedOnly == {"quoted"}
 TVals == 1..3
 TInit == [h \in {"h1", "h2", "h3"} |-> 1]
 =============================================================================
